@@ -170,6 +170,54 @@ impl Prop for C17 {
                     }
                     continue;
                 }
+                // a contract addressed by the inscription id of its deployment: deploy under id X, call it by X, orphan the
+                // deployment, let the sender's nonce move, deploy again under the same id X (another address now), and call by X
+                if g.rng.chance(1, 10) && w.height.map_or(false, |h| h >= 1) {
+                    let x = id;
+                    let first = Tx { id: x, kind: TxKind::Deploy { sender, prog: DeployProg::Store }, len: LenPolicy::Generous, enc: Enc::Hex };
+                    let r1 = w.exec_tx(ts, &HashMode::Zero, &first);
+                    let addr1 = r1.ok().and_then(|rc| rc["contractAddress"].as_str().map(|s| s.to_string()));
+                    if let Some(a1) = &addr1 {
+                        id += 1;
+                        let by_x = Tx { id, kind: TxKind::Call { sender: (sender + 1) % N_PK, target: Target::Addr(a1.clone()), by_inscription: true, data: Cd::BlockInfo }, len: LenPolicy::Generous, enc: Enc::Hex };
+                        let _ = w.exec_tx(ts, &HashMode::Zero, &by_x);
+                    }
+                    let _ = w.finalise(ts, &HashMode::Zero);
+                    let target = w.height.unwrap_or(1).saturating_sub(1);
+                    let rr = w.reorg_to(target);
+                    if let (Some(addr1), true) = (addr1, rr.is_ok()) {
+                        id += 1;
+                        // the sender's nonce moves, so the same inscription creates the contract somewhere else
+                        let bump = Tx { id, kind: TxKind::Call { sender, target: Target::Dead, by_inscription: false, data: Cd::Empty }, len: LenPolicy::Generous, enc: Enc::Hex };
+                        let _ = w.exec_tx(ts + 1, &HashMode::Zero, &bump);
+                        let again = Tx { id: x, kind: TxKind::Deploy { sender, prog: DeployProg::Store }, len: LenPolicy::Generous, enc: Enc::Hex };
+                        let r2 = w.exec_tx(ts + 1, &HashMode::Zero, &again);
+                        let _ = w.finalise(ts + 1, &HashMode::Zero);
+                        let addr2 = r2.ok().and_then(|rc| rc["contractAddress"].as_str().map(|s| s.to_string()));
+                        if let Some(addr2) = addr2 {
+                            id += 1;
+                            let asker = (sender + 2) % N_PK;
+                            let predicted = w.inst.call("eth_call", json!([w.eth_call_obj(&Who::Pk(asker), &Some(Target::Addr(addr2.clone())), &Cd::BlockInfo, &None)]));
+                            let tx = Tx { id, kind: TxKind::Call { sender: asker, target: Target::Addr(addr2.clone()), by_inscription: true, data: Cd::BlockInfo }, len: LenPolicy::Generous, enc: Enc::Hex };
+                            let r3 = w.exec_tx(ts + 2, &HashMode::Zero, &tx);
+                            let _ = w.finalise(ts + 2, &HashMode::Zero);
+                            if let Resp::Ok(rc) = &r3 {
+                                let th = rc["transactionHash"].as_str().unwrap_or("").to_string();
+                                let real_out = w.inst.call("debug_traceTransaction", json!([th])).ok().and_then(|t| t["output"].as_str().map(|s| s.to_lowercase()));
+                                let pred_out = predicted.clone().ok().and_then(|v| v.as_str().map(|s| s.to_lowercase()));
+                                w.stats.bump(if addr2 != addr1 { "probe_call_by_inscription_id_after_redeploy_elsewhere" } else { "probe_call_by_inscription_id_after_redeploy" });
+                                if predicted.is_ok() != (hex_u64(&rc["status"]) == Some(1)) || (real_out.is_some() && pred_out.is_some() && real_out != pred_out) || rc["to"].as_str().map(|s| s.to_lowercase()) != Some(addr2.to_lowercase()) {
+                                    violation = Some(Violation::new(
+                                        "call-by-inscription-id-differs-from-eth_call",
+                                        json!({"probe": k, "address_first": addr1, "address_again": addr2, "eth_call": pred_out, "transaction_output": real_out, "receipt_to": rc["to"], "receipt_status": rc["status"]}),
+                                    ));
+                                    break 'probes;
+                                }
+                            }
+                        }
+                    }
+                    continue;
+                }
                 let creation = g.rng.chance(1, 5) || w.book.contracts.is_empty();
                 let (call, tx) = if creation {
                     let prog = if g.rng.chance(1, 3) { DeployProg::NumberCode } else { g.deploy_prog() };
@@ -203,10 +251,23 @@ impl Prop for C17 {
                     } else {
                         (target, data)
                     };
-                    (
-                        w.eth_call_obj(&Who::Pk(sender), &Some(target.clone()), &data, &None),
-                        Tx { id, kind: TxKind::Call { sender, target, by_inscription: false, data }, len: LenPolicy::Generous, enc: Enc::Hex },
-                    )
+                    // a fifth of the calls are made by a signer account through a signed transaction (next nonce; the gas
+                    // limit and value fields of the payload vary with its content and must not matter)
+                    // (not to the zero address: in a signed payload that spells a creation, `from_raw_transaction`)
+                    let zero_target = matches!(&target, Target::Addr(a) if a.trim_start_matches("0x").chars().all(|c| c == '0'));
+                    if g.rng.chance(1, 5) && !zero_target {
+                        let sg = g.rng.below(crate::world::N_SIGNERS as u64) as u8;
+                        w.stats.bump("probe_signed_transaction_probe");
+                        (
+                            w.eth_call_obj(&Who::Signer(sg), &Some(target.clone()), &data, &None),
+                            Tx { id, kind: TxKind::Transact { signer: sg, nonce: NonceSpec::Rel(0), to: Some(target), data, deploy: None, chain_ok: true }, len: LenPolicy::Generous, enc: Enc::Hex },
+                        )
+                    } else {
+                        (
+                            w.eth_call_obj(&Who::Pk(sender), &Some(target.clone()), &data, &None),
+                            Tx { id, kind: TxKind::Call { sender, target, by_inscription: false, data }, len: LenPolicy::Generous, enc: Enc::Hex },
+                        )
+                    }
                 };
                 let predicted = w.inst.call("eth_call", json!([call]));
                 if let Resp::Panic(pm) = &predicted {
@@ -215,6 +276,16 @@ impl Prop for C17 {
                 }
                 let r = w.exec_tx(ts, &HashMode::Zero, &tx);
                 let receipt = match &r {
+                    // a signed transaction answers with the receipts it produced; with a drained successor or none at all
+                    // (stale bookkeeping of the nonce) the comparison is skipped
+                    Resp::Ok(Value::Array(a)) => match a.first() {
+                        Some(x) if a.len() == 1 => x.clone(),
+                        _ => {
+                            let _ = w.finalise(ts, &HashMode::Zero);
+                            w.stats.bump("signed_probe_not_compared");
+                            continue;
+                        }
+                    },
                     Resp::Ok(v) => v.clone(),
                     other => {
                         violation = Some(Violation::new("probe-tx-rejected", json!({"probe": k, "resp": other.to_value()})));
